@@ -583,6 +583,10 @@ class SharesManager(BaseManager):
         self._build_term_map(shared_directory)
         self._cleanup_term_map()
 
+        # The items of the directory might have changed: uploads need to be
+        # re-evaluated
+        self._event_bus.emit_sync(SharedDirectoryChangeEvent(shared_directory))
+
     async def scan_directory_file_attributes(self, shared_directory: SharedDirectory):
         """Scans the file attributes for files in the given ``shared_directory``
         only files that do not have attributes will be scanned
